@@ -263,6 +263,10 @@ def _enc_frames(R, specs, side: Side, st, meta):
             side.crypto_off["app"] = off + len(msg)
             out += Q.f_crypto(off, msg)
             meta.append({"n": "CryptoFrame", "offset": off, "data": msg.hex()})
+        elif k == "ext1":
+            # one byte frame of a negotiated extension (e.g. IMMEDIATE_ACK 0x1f of the ack-frequency extension)
+            out += bytes([f[1]])
+            meta.append({"n": "ExtensionFrame"})
         elif k == "hsdone":
             out += Q.f_handshake_done()
             meta.append({"n": "HandshakeDoneFrame"})
@@ -408,7 +412,7 @@ def build_units(conn):
                                 length_width=(extra or {}).get("lw"))
             raw = Q.protect(keys, hdr, pn, pnlen, payload, True)
         pm = {"d": d, "kind": kind, "space": SPACE[kind], "pn": pn, "pnlen": pnlen, "frames": meta, "level": lvl,
-              "boundary": bool((extra or {}).get("boundary")),
+              "boundary": bool((extra or {}).get("boundary")), "ext_last": bool((extra or {}).get("ext_last")),
               "gen": sd.gen if kind == "1rtt" else None, "dcid": sd.dcid.hex()}
         return raw, sdata, pm
 
